@@ -1,5 +1,5 @@
 """C15 - A nonce is never used for two different messages (structural clauses)."""
-from common import (mentions, closure_in, async_body, closure_arg_sites, ok_return_bbs, call_bbs, named_local, src_calls,
+from common import (mentions, closure_in, async_body, closure_arg_sites, ok_return_bbs, call_bbs, named_local, src_calls, variant_bbs,
                     src_fields, src_consts, bodies_of, result_used)
 from facts import AnchorLost, op_place
 import prims
@@ -19,11 +19,15 @@ must sit behind a once-guard on captured state: a captured bool tested false bef
 Option consumed with take();
 (d) session ids: get_next_sess_id leaves its loop only when no live session has the candidate as local session id, and
 never yields 0; (e) exchange ids: get_next_exch_id's uniqueness test must cover exchanges in the Initiator role - the ids it
-hands out name initiator exchanges (violated on the pinned tree: fixed by 5ca924b).
+hands out name initiator exchanges (violated on the pinned tree: fixed by 5ca924b);
+(f) pre_send reuses the counter of an exchange's pending retransmission for whatever is sent with that exchange index, so every
+TransportRunner::write_packet call passes exch_index = None, except the dropped-exchange clean-up ACK, which is cut by
+close_session == false (no retransmission pending); (g) in ReliableMessage::post_recv no MRP state is written on a path that ends
+in Err(Duplicate): a dropped stale-ACK message cannot change the acknowledgement a pending retransmission piggy-backs.
 """
 CLAUSES = ['a: message counter reused only for retransmissions', 'c: retransmittable builders are idempotent (once-guards)', 'd: session ids unique among live sessions',
-           'e: exchange ids unique among live exchanges']
-NOT_DECIDED = ['bit-for-bit identity of retransmissions at run time', 'monotonicity under every schedule', 'piggy-backed acknowledgement stability']
+           'e: exchange ids unique among live exchanges', 'f: transport-generated packets never borrow an exchange\'s retransmission counter', 'g: dropped duplicates leave the piggy-backed ACK unchanged']
+NOT_DECIDED = ['bit-for-bit identity of retransmissions at run time', 'monotonicity under every schedule', 'piggy-backed acknowledgement stability against a peer that omits the ACK flag on a new message']
 MIN_OBLIGATIONS = {'q': 20, 'd': 20, 'r': 16}
 
 SESS = 'transport::session::Session'
@@ -250,6 +254,67 @@ def check(R):
             R.ok('P2', ne.fn, 'the uniqueness test covers exchanges in the Initiator role', f'id comparison reachable for Role::Initiator (role switches: {role_sw})')
         fm = [t for t in ne.calls() if t.d.get('f', '').endswith('Iterator::flat_map')]
         R.expect('P9', ne.fn, 'the scan covers the exchanges of every session', len(fm) == 1 and mentions(prims.sources(ne, fm[0].d['a'][0], through={'core::slice::<impl [T]>::iter'}), 'sessions'), 'sessions.iter().flat_map(exchanges)', 'scan changed')
+
+
+    # ---- f --------------------------------------------------------------------
+    with R.clause('f'):
+        # Session::pre_send reuses the counter of the exchange's pending retransmission for WHATEVER is sent with that exchange index.
+        # Transport-generated packets (stand-alone ACKs, status reports, eviction notices) therefore go out with exch_index = None,
+        # except the clean-up ACK of a dropped exchange, which runs only when no retransmission is pending.
+        WP = 'transport::TransportRunner::write_packet'
+        sites = [(b, t) for b in F.bodies.values() if b.focus and '::tests::' not in b.fn for t in b.calls(WP)]
+        R.floor('TransportRunner::write_packet call sites', len(sites), 6)
+        with_exch = []
+        for b, t in sites:
+            src = prims.sources(b, t.d['a'][3])
+            none_only = src and all((x[0] == 'agg' and x[1] == 'core::option::Option' and x[2] == 'None') for x in src)
+            if not none_only:
+                with_exch.append((b, t))
+        allowed = [(b, t) for b, t in with_exch if F.owner_fn(b.fn).endswith('::handle_dropped_exchange')]
+        other = [(b, t) for b, t in with_exch if not F.owner_fn(b.fn).endswith('::handle_dropped_exchange')]
+        R.expect('P1', WP, 'transport-generated packets are sent outside any exchange (exch_index = None), except the dropped-exchange clean-up ACK',
+                 not other, f'{len(sites) - len(with_exch)} sites pass None; {len(allowed)} in handle_dropped_exchange',
+                 '; '.join(f'{b.fn} at {b.where(t.bb)} passes an exchange index: if that exchange has a pending retransmission the packet is sent under the retransmission\'s message counter'
+                           for b, t in other), other[0][0].where(other[0][1].bb) if other else '')
+        R.floor('clean-up ACK site in handle_dropped_exchange', len(allowed), 1)
+        for b, t in allowed:
+            cs = named_local(b, 'close_session')
+            te, fe = set(), set()
+            for l in cs:
+                a_, b_ = prims.bool_local_edges(b, l)
+                te |= a_
+                fe |= b_
+            R.cut('P2', b, 'send a stand-alone ACK through the dropped exchange', [t.bb], 'the exchange has no pending retransmission (close_session == false)', fe)
+
+    # ---- g --------------------------------------------------------------------
+    with R.clause('g'):
+        # a retransmission is bit-identical only if the acknowledgement it piggy-backs does not change in between: a received message
+        # that is dropped as Duplicate (stale ACK while a retransmission is pending) must leave the exchange's MRP state untouched
+        pr = R.body('transport::mrp::ReliableMessage::post_recv')
+        dup = variant_bbs(pr, 'error::ErrorCode', 'Duplicate')
+        R.floor('Err(Duplicate) in ReliableMessage::post_recv', len(dup), 1)
+        writes = set()
+        for i, j, st in pr.stmts():
+            pl = st[0]
+            if pl[0] == 1 and len(pl) >= 3 and pl[1] == '*' and isinstance(pl[2], str) and pl[2].startswith('.') and not pr.is_cleanup(i):
+                writes.add(i)
+        for i, blk in enumerate(pr.bbs):
+            t = blk['t']
+            if t['t'] == 'call' and not blk.get('c') and t.get('d') and t['d'][0] == 1 and len(t['d']) >= 3:
+                writes.add(i)
+        R.floor('MRP state writes in post_recv', len(writes), 3)
+        anc, work = set(), list(dup)
+        while work:
+            x = work.pop()
+            for p_ in pr.pred[x]:
+                if p_ not in anc and not pr.is_cleanup(p_):
+                    anc.add(p_)
+                    work.append(p_)
+        bad = sorted(writes & anc)
+        R.expect('P3', pr.fn, 'no MRP state (ack / retrans / received_at) is written on a path that ends in Err(Duplicate)', not bad,
+                 f'{len(writes)} writes, none precedes the Duplicate return', 'state written at ' + ', '.join(pr.where(x) for x in bad) +
+                 ' before the message is dropped as Duplicate: the pending retransmission will piggy-back a different acknowledgement than the original transmission',
+                 pr.where(bad[0]) if bad else '')
 
 
 def _locals(body, operand):
